@@ -13,7 +13,7 @@ import (
 // Supported column types (name -> OID), per the PostgreSQL catalog.
 var OIDs = map[string]uint32{
 	"bool": 16, "bytea": 17, "name": 19, "int8": 20, "int2": 21, "int4": 23, "text": 25, "oid": 26,
-	"json": 114, "_int4": 1007, "_text": 1009, "float4": 700, "jsonb": 3802, "bpchar": 1042, "timestamptz": 1184, "float8": 701, "varchar": 1043, "date": 1082, "timestamp": 1114, "uuid": 2950,
+	"json": 114, "_int4": 1007, "_text": 1009, "float4": 700, "jsonb": 3802, "bpchar": 1042, "timestamptz": 1184, "custom": 99999, "float8": 701, "varchar": 1043, "date": 1082, "timestamp": 1114, "uuid": 2950,
 }
 
 var TypeNames = []string{"bool", "int2", "int4", "int8", "float4", "float8", "text", "varchar", "name", "bytea", "uuid", "oid", "date", "timestamp", "json", "jsonb", "bpchar", "timestamptz"}
@@ -324,7 +324,7 @@ func Decode(typ string, format int16, b []byte) (any, error) {
 			return nil, err
 		}
 		return math.Float64frombits(binary.BigEndian.Uint64(b)), nil
-	case "text", "varchar", "name", "json", "bpchar":
+	case "text", "varchar", "name", "json", "bpchar", "custom":
 		return string(b), nil
 	case "jsonb":
 		if text {
@@ -434,7 +434,7 @@ func Encode(typ string, format int16, v any) []byte {
 		b := make([]byte, 8)
 		binary.BigEndian.PutUint64(b, math.Float64bits(x))
 		return b
-	case "text", "varchar", "name", "json", "bpchar":
+	case "text", "varchar", "name", "json", "bpchar", "custom":
 		return []byte(v.(string))
 	case "jsonb":
 		if text {
